@@ -114,6 +114,39 @@ def system_io(rec, hub, rng, i):
                 plt.close(fig)
         except Exception:
             pass
+    # generated plotter configurations: arrays of 1-3 dimensions (with gaps: NaN / inf entries), every chart type, dimensions given
+    # to roles (x, line colour, subplot, sliced, summed) at random, with / without an x array
+    for rep in range(3):
+        nd = int(rng.integers(1, 4))
+        ls = [str(q) for q in rng.permutation(["a", "b", "c"])[:nd]]
+        Up = gen.universe(fd, {"a": 2, "b": 3, "c": 2}, rng=rng)
+        pv = gen.values_one("dyadic", rng, gen.shape_of(Up, ls)).astype(float)
+        if rng.random() < 0.7 and pv.size:
+            pv.reshape(-1)[int(rng.integers(0, pv.size))] = [np.nan, np.inf, -np.inf][int(rng.integers(0, 3))]
+        parr = fd.FlodymArray(dims=gen.dimset(fd, Up, ls), values=pv, name="quantity")
+        roles = {"intra_line_dim": ls[0]}
+        rest = ls[1:]
+        kw = {}
+        for l in rest:
+            r_ = str(rng.choice(["linecolor_dim", "subplot_dim", "slice", "sum"]))
+            if r_ in ("linecolor_dim", "subplot_dim") and r_ not in roles:
+                roles[r_] = l if rng.random() < 0.5 else Up[l].name
+            elif r_ == "slice":
+                kw.setdefault("slice_dict", {})[l] = Up[l].items[0]
+            else:
+                kw.setdefault("summed_dims", []).append(l)
+        if rng.random() < 0.4:
+            kw["x_array"] = fd.FlodymArray(dims=gen.dimset(fd, Up, (ls[0],)), values=np.arange(1.0, 1.0 + len(Up[ls[0]].items)), name="x")
+        kw["chart_type"] = str(rng.choice(["line", "scatter", "area", "area"]))
+        for cls in (ap.PlotlyArrayPlotter, ap.PyplotArrayPlotter):
+            try:
+                fig = cls(array=parr, **roles, **kw).plot()
+                if cls is ap.PyplotArrayPlotter:
+                    from matplotlib import pyplot as plt
+
+                    plt.close(fig)
+            except Exception:
+                pass
     tdim = fd.Dimension(letter="t", name="time", items=[2000, 2001, 2003, 2006])
     ds = fd.DimensionSet(dim_list=[tdim, U["a"]])
     inflow = fd.StockArray(dims=ds, values=np.abs(gen.values_one("dyadic", rng, ds.shape)))
